@@ -177,11 +177,28 @@ def build(prop_id, theorems, tier='quick', extra_targets=()):
                             res.ok = False; res.bad_axioms[th] = bad
                             res.failed.append(f'theorem {th} depends on disallowed axioms {bad}')
                 if tier == 'thorough' and os.environ.get('VERIF_COQCHK', '1') == '1':
-                    rc, out = sh(f'timeout 1500 coqchk -silent -o -Q . Dino Dino.Prop.{prop_id} 2>&1 | tail -40', cwd=COQ, timeout=1600)
-                    res.log += out
+                    # independent re-check of the compiled property file and everything it depends on
+                    p = subprocess.run(f'timeout 3000 coqchk -silent -o -Q . Dino Dino.Prop.{prop_id}', shell=True, cwd=COQ,
+                                       stdout=subprocess.PIPE, stderr=subprocess.STDOUT, text=True, timeout=3100)
+                    out = p.stdout
+                    res.log += out[-3000:]
                     res.coqchk = out[-3000:]
-                    if 'Modules were successfully checked' not in out:
-                        res.ok = False; res.failed.append('coqchk: ' + out[-500:])
+                    summ = out[out.find('CONTEXT SUMMARY'):] if 'CONTEXT SUMMARY' in out else ''
+                    ok = (p.returncode == 0 and summ != '' and
+                          re.search(r'type-in-type:\s*<none>', summ) is not None and
+                          re.search(r'unsafe \(co\)fixpoints:\s*<none>', summ) is not None and
+                          re.search(r'positivity is assumed:\s*<none>', summ) is not None)
+                    ax = []
+                    m = re.search(r'\* Axioms:(.*?)\n\s*\n\* ', summ, re.S)
+                    if m:
+                        ax = [a.strip() for a in m.group(1).split('\n') if a.strip() and a.strip() != '<none>']
+                    res.coqchk_axioms = ax
+                    badax = [a for a in ax if (a[4:] if a.startswith('Coq.') else a) not in
+                             {('Logic.' + x) if x.startswith(('Classical_Prop', 'FunctionalExtensionality')) else ('Reals.' + x) for x in ALLOWED_AXIOMS}
+                             and not any(t in a for t in ('Floats.', 'PrimFloat', 'Uint63', 'PrimInt63', 'Sint63', 'FloatAxioms', 'Numbers.Cyclic'))
+                             and not a.startswith(('Coq.Logic.', 'Coq.Reals.', 'Coq.Floats.', 'Coq.Numbers.', 'Flocq.', 'Coquelicot.', 'Interval.'))]
+                    if not ok or badax:
+                        res.ok = False; res.failed.append(f'coqchk (exit {p.returncode}) bad axioms {badax}: ' + summ[-600:] + out[-300:])
     finally:
         fcntl.flock(lock, fcntl.LOCK_UN); lock.close()
     res.wall = time.time() - t0
